@@ -59,9 +59,12 @@ TEXT = {
     "C08": ("Theorems: for every well-formed type and key, type navigation accepts the key iff the specification's "
             "get_generalized_index step is defined, and then key_to_static_gindex is defined and equals the spec's index "
             "(next_pow2(chunk_count)+i, x2 for lists, packed index arithmetic, __len__/__selector__ = 3) with the spec's "
-            "type; whole paths are step-wise the spec's and Path.gindex() concatenates those steps; to_gindex i d = 2^d+i. "
-            "Node addressing and dynamic indices tied by correspondence + model-free oracle.",
-            "Coq proof (case analysis on ty, N arithmetic/bit lemmas) + correspondence", "5 (C08)"),
+            "type; whole paths are step-wise the spec's and Path.gindex() concatenates those steps; to_gindex i d = 2^d+i; "
+            "concat_gindices concatenates the steps' paths at the bit level; C08_node: for ANY representation of a value "
+            "and any path through composite children, the backing node at Path.gindex() represents the addressed sub-value "
+            "and has its hash-tree-root; index 3 holds the length / selector. Dynamic indices / navigate_view of the "
+            "Python objects: correspondence + model-free oracle.",
+            "Coq proof (case analysis on ty, N bit lemmas, Repr invariant) + correspondence", "5 (C08)"),
     "C09": ("Theorems C09_sound / C09_stable (full statements, every type): whatever the decoder accepts (scope <= available "
             "bytes) is a well-formed value (lengths within limits, integers in range, valid selector), its backing is "
             "exactly the constructor's, its root is the spec root, re-encoding gives the consumed bytes and their count, and "
